@@ -49,6 +49,7 @@ func (s *Subscription) push(ppblk *bstream.PreprocessedBlock) error {
 
 func (s *Subscription) run() error {
 	for {
+		verifPoint("subscription:receive")
 		select {
 		case ppblk := <-s.blocks:
 			if s.IsTerminating() { // deal with non-predictibility of select
